@@ -101,7 +101,7 @@ def get_paths(ctx: Ctx, entries: list[str] | None = None, gen: str = "compiler:C
         jobs = [(ctx.repo.root, gen, e, loop_max) for e in todo]
         # big ones first
         jobs.sort(key=lambda j: {"visit_Template": 0, "visit_Filter": 1, "visit_For": 2, "visit_AssignBlock": 3, "macro_body": 4, "visit_Call": 5}.get(j[2], 9))
-        nproc = min(len(jobs), os.cpu_count() or 4, 16)
+        nproc = min(len(jobs), os.cpu_count() or 4, int(os.environ.get("VERIF_WORKERS", "16")))
         if nproc > 1:
             with mp.get_context("fork").Pool(nproc) as pool:
                 results = pool.map(_work, jobs, chunksize=1)
